@@ -2,7 +2,8 @@
 // entries; a repeated key / an assignment of an unacceptable kind is reported by that call and the
 // assembler stays usable.
 // Record: id, "c12", engine, value(s), annotated script, observation
-//   engine: basic:<proto> | enum:any | bind:S | bind:M | gen:S | gen:M | tbind:<type> | tgen:<type>
+//   engine: basic:<proto> | enum:any | bind:S | bind:M | gen:S | gen:M | tbind[r]:<type> | tgen[r]:<type>
+//           (the "r" engines assemble through the representation-level prototype and are read back at that level)
 //           (tbind/tgen: the typed family — bindnode over inferred Go types, gendemo where the type
 //           exists; <type> in the text form of harness/lib/schema_ty.go; value = the expected
 //           type-level read-back with "z" for an absent optional field; a call annotated !E<T> must
@@ -58,6 +59,10 @@ type MapMsg3 {String:Msg3}
 	typedTS = ts
 }
 
+func isTyped(engine string) bool {
+	return strings.HasPrefix(engine, "tbind") || strings.HasPrefix(engine, "tgen")
+}
+
 func builderFor(engine string) datamodel.NodeBuilder {
 	switch engine {
 	case "bind:S":
@@ -74,7 +79,7 @@ func builderFor(engine string) datamodel.NodeBuilder {
 	if strings.HasPrefix(engine, "basic:") {
 		return lib.BuilderFor(engine[6:])
 	}
-	if strings.HasPrefix(engine, "tbind:") || strings.HasPrefix(engine, "tgen:") {
+	if isTyped(engine) {
 		i := strings.IndexByte(engine, ':')
 		t, err := lib.SchParse(engine[i+1:])
 		if err != nil {
@@ -120,9 +125,15 @@ func observe(engine string, script string) string {
 			continue
 		}
 		var d string
-		typed := strings.HasPrefix(engine, "tbind:") || strings.HasPrefix(engine, "tgen:")
+		typed := isTyped(engine)
 		if err := lib.Safely(func() error {
 			if typed {
+				if lib.TypedRepr(engine[:strings.IndexByte(engine, ':')]) {
+					// builders of the representation prototype hand back the type-level node
+					if tn, ok := n.(schema.TypedNode); ok {
+						n = tn.Representation()
+					}
+				}
 				d = lib.DumpTyped(n)
 			} else {
 				d = lib.Dump(n)
@@ -163,6 +174,8 @@ type injGen struct {
 	target int
 	count  int
 	typed  bool // typed engines: values at int / struct positions, wrong-kind injections at values
+	eng    string // typed family: the engine the script is for (same-engine AssignNode arguments)
+	depth  int
 }
 
 func (g *injGen) point() bool {
@@ -385,6 +398,25 @@ func (g *injGen) typedValue(t *lib.SchTy, nul bool, v *lib.Val) []*lib.Op {
 		}
 		return append(ops, &lib.Op{Code: "XN", N: lib.PlainSpec(v)})
 	}
+	if t.K == 'L' || t.K == 'M' || t.K == 'R' {
+		// a container of the schema can arrive built call by call, as a node of ANOTHER
+		// implementation (basicnode; the assembler ranges over it), or as a node of the SAME engine
+		// (same-type shortcut).  Children of one parent mix the three, often several foreign ones in a row.
+		pForeign, pSame := 35, 15
+		if g.depth == 0 {
+			pForeign, pSame = 8, 4
+		}
+		switch c := g.r.Intn(100); {
+		case c < pForeign:
+			return append(ops, &lib.Op{Code: "XN", N: lib.PlainSpec(v)})
+		case c < pForeign+pSame:
+			if nb, _ := lib.TypedBuilder(g.eng, t); nb != nil {
+				return append(ops, &lib.Op{Code: "XN", N: &lib.NSpec{Tag: 'T', Eng: g.eng, Ty: t.Text(), V: v}})
+			}
+		}
+	}
+	g.depth++
+	defer func() { g.depth-- }()
 	switch t.K {
 	case 'L':
 		ops = append(ops, &lib.Op{Code: "BL", Hint: int64(len(v.L)) + int64(g.r.Intn(3)) - 1})
@@ -425,8 +457,10 @@ func (g *injGen) typedValue(t *lib.SchTy, nul bool, v *lib.Val) []*lib.Op {
 	return append(ops, &lib.Op{Code: "X", V: v})
 }
 
-func runTyped(out *lib.Out, id string, t *lib.SchTy, v *lib.Val, script string) {
-	for _, e := range []string{"tbind", "tgen"} {
+// the typed family on every engine that has the type: per engine its own variants (the scripts
+// differ only in same-engine AssignNode arguments)
+func runTyped(out *lib.Out, base string, t *lib.SchTy, v *lib.Val, seed uint64, fixed [][]*lib.Op) {
+	for _, e := range lib.TypedEngines {
 		nb, err := lib.TypedBuilder(e, t)
 		if nb == nil {
 			if e == "tbind" {
@@ -435,7 +469,16 @@ func runTyped(out *lib.Out, id string, t *lib.SchTy, v *lib.Val, script string) 
 			continue
 		}
 		engine := e + ":" + t.Text()
-		out.Case(id+"."+e[1:2], "c12", engine, lib.TypedExpect(t, v), script, observe(engine, script))
+		want := lib.TypedExpect(t, v, lib.TypedRepr(e))
+		scripts := fixed
+		if scripts == nil {
+			e := e
+			scripts = variants(seed, func(g *injGen) []*lib.Op { g.eng = e; return g.typedValue(t, false, v) }, true, 4)
+		}
+		for j, s := range scripts {
+			script := strings.ReplaceAll(lib.ScriptText(s), "T"+lib.Hex("SAME:"), "T"+lib.Hex(e+":"))
+			out.Case(fmt.Sprintf("%s.%d.%s", base, j, e[1:]), "c12", engine, want, script, observe(engine, script))
+		}
 	}
 }
 
@@ -586,6 +629,38 @@ func main() {
 	}
 	enumerate(out, next, depth, &budget)
 
+	{ // a container of structs whose children arrive, several in a row, as nodes of another implementation
+		mk := func(a, b, c int64) *lib.Val {
+			return lib.Map(lib.Entry{K: "whee", V: lib.Int(a)}, lib.Entry{K: "woot", V: lib.Int(b)}, lib.Entry{K: "waga", V: lib.Int(c)})
+		}
+		mt := lib.TypedFamily()[5] // {String:Msg3}
+		st := lib.TypedFamily()[6] // Msg3
+		vs := []*lib.Val{mk(1, 2, 3), mk(4, 5, 6), mk(7, 8, 9), mk(10, 11, 12), mk(13, 14, 15)}
+		v := &lib.Val{Kind: lib.KMap}
+		for i, x := range vs {
+			v.M = append(v.M, lib.Entry{K: fmt.Sprintf("k%d", i), V: x})
+		}
+		foreign := func(x *lib.Val) []*lib.Op { return []*lib.Op{{Code: "XN", N: lib.PlainSpec(x)}} }
+		same := func(x *lib.Val) []*lib.Op {
+			return []*lib.Op{{Code: "XN", N: &lib.NSpec{Tag: 'T', Eng: "SAME", Ty: st.Text(), V: x}}}
+		}
+		begin := func(x *lib.Val) []*lib.Op { return lib.DirectScript(x) }
+		for _, modes := range [][]func(*lib.Val) []*lib.Op{
+			{foreign, foreign, foreign, foreign, foreign},
+			{begin, foreign, foreign, same, foreign},
+			{same, foreign, begin, foreign, foreign},
+			{foreign, same, same, begin, begin},
+		} {
+			ops := []*lib.Op{{Code: "BM", Hint: 5}}
+			for i, e := range v.M {
+				ops = append(ops, &lib.Op{Code: "AE", Key: e.K})
+				ops = append(ops, modes[i](e.V)...)
+			}
+			ops = append(ops, op("FI"))
+			runTyped(out, next(), mt, v, 0, [][]*lib.Op{ops})
+		}
+	}
+
 	// ---- the typed family (bindnode over inferred Go types; gendemo where the type exists):
 	// legal scripts with every refused assign form injected at every typed position
 	fam := lib.TypedFamily()
@@ -602,11 +677,11 @@ func main() {
 			}
 		}
 		v := rng.GenTypedVal(t)
-		base := next()
-		seed := rng.U64()
-		for j, s := range variants(seed, func(g *injGen) []*lib.Op { return g.typedValue(t, false, v) }, true, 4) {
-			runTyped(out, fmt.Sprintf("%s.%d", base, j), t, v, lib.ScriptText(s))
-		}
+		runTyped(out, next(), t, v, rng.U64(), nil)
+	}
+	for i := 0; i < 12; i++ { // the one container-of-structs type both engines have: more rounds
+		t := fam[5]
+		runTyped(out, next(), t, rng.GenTypedVal(t), rng.U64(), nil)
 	}
 
 	// ---- generated: values x legal scripts x injections at every position
